@@ -118,3 +118,6 @@ func listDiff(a, b []string) []string {
 	}
 	return out
 }
+
+// genDims - what the shared program/scenario generators vary (appended to the Rule text of the checks that use them).
+const genDims = " Program generator: 12 option kinds, pointer and *Var forms, 0-3 aliases (one or two Alias modifiers), nested-prefix and multibyte names incl. bytes that are not valid UTF-8, defaults, env bindings, valid values, command trees (depth<=3) with inherited options, UnsetOptions wrappers, per-command unknown mode and require-order, commands without function, help command with aliases, options declared before/between/after the commands of their level (the latter two only if the library accepts that order), SetMode/SetUnknownMode/SetRequireOrder called before or after the commands are defined, lonesome dash. Scenario generator: positionals (incl. empty strings, `-=x` shaped text), flags, valued/optional/multi-value occurrences (attached or detached values, hostile value texts, int ranges), command tokens, unknown options (long, short, digit names, bundled with known flags and argument-taking letters, spellings that are known at another level), bundles, abbreviations, `--` with hostile tails."
